@@ -150,6 +150,14 @@ func (s *LinearState) Load(ctx *Context) error {
 			return err
 		}
 		s.Facts[id] = RawFact{m, js}
+		if s.addHook != nil {
+			// As IndexedState does when loading (the hook is
+			// told that we are loading).
+			if err := s.addHook(ctx, s, id, m, true); err != nil {
+				Log(ERROR, ctx, "LinearState.Load", "state", s.Name, "error", err, "when", "addHook", "id", id)
+				return err
+			}
+		}
 	}
 
 	Log(DEBUG, ctx, "LinearState.Load", "location", s.Name, "facts", len(s.Facts))
